@@ -356,17 +356,21 @@ class UProxy:
     def isclose(s, a, b, rtol=1e-5, atol=None, **k):
         if not (_is_objq(a) or _is_objq(b)):
             return _u.isclose(a, b, rtol=rtol, atol=atol, **k)
-        if atol is not None:
-            raise Unsupported("u.isclose with atol on symbolic data")
         av, bv = s._pair(a, b)
         av, bv = _np.broadcast_arrays(av, bv)
+        if atol is None:
+            at = _np.zeros(av.shape, dtype=object)
+        else:
+            aq = atol if isinstance(atol, _u.Quantity) else _u.Quantity(atol, (a.unit if isinstance(a, _u.Quantity) else _u.one))
+            at = _np.broadcast_to(_np.asarray(plain(aq.to_value(a.unit if isinstance(a, _u.Quantity) else _u.one)), dtype=object), av.shape)
         out = _np.empty(av.shape, dtype=object)
         r = K.realval(K.frac_of_float(rtol))
         for ix in _np.ndindex(*av.shape):
             x, y = _toreal(rv(av[ix])), _toreal(rv(bv[ix]))
             d = x - y
             ay = z3.If(y >= 0, y, -y)
-            out[ix] = SBool(z3.And(d <= r * ay, -d <= r * ay))
+            lim = r * ay + _toreal(rv(at[ix]))
+            out[ix] = SBool(z3.And(d <= lim, -d <= lim))
         return out[()] if out.ndim == 0 else out
 
     def allclose(s, a, b, rtol=1e-5, atol=None, **k):
